@@ -256,7 +256,11 @@ func GenCase(tape *sim.Tape, crashBias bool) *Case {
 			}
 		}
 		iv.Recursive = true
-		switch tape.Draw(7) {
+		switch tape.Draw(9) {
+		case 7: // the current directory itself, everything below it in place
+			iv.Inputs, iv.Output = []string{"."}, "./"
+		case 8:
+			iv.Inputs, iv.Output = []string{"src/.."}, "."
 		case 5: // the directory named through a trailing dot
 			iv.Inputs, iv.Output = []string{"src/."}, "src/."
 		case 6: // ... or through a parent reference
